@@ -4,6 +4,7 @@ import (
 	"bytes"
 	"errors"
 	"fmt"
+	"sort"
 	"strings"
 
 	"github.com/moov-io/iso8583"
@@ -144,6 +145,15 @@ func msgObserve(m *iso8583.Message) string {
 		parts = append(parts, fmt.Sprintf("(%d %s)", id, showVal(fields[id])))
 	}
 	return strings.Join(parts, " ")
+}
+
+func sortedKeys(m map[string]field.Field) []string {
+	ks := make([]string, 0, len(m))
+	for k := range m {
+		ks = append(ks, k)
+	}
+	sort.Strings(ks)
+	return ks
 }
 
 func sortedIDs(m map[int]field.Field) []int {
